@@ -4,7 +4,8 @@
 (* protocol on the labelled objects of RdmsStore / the fold generators of  *)
 (* CvSets:                                                                 *)
 (*                                                                         *)
-(*   eval_fixed                  routine "fixed"                           *)
+(*   eval_fixed                  routine "fixed" (bootR: on a stack that   *)
+(*                               the caller resampled with repetitions)    *)
 (*   eval_bootstrap[_rdm|_pattern]  "boot"     bootR / bootP               *)
 (*   crossval                    "crossval"  cv = "kfold" | "kfoldpat"     *)
 (*   bootstrap_crossval          "bootcv"    cv = "kfold", nCv repetitions *)
@@ -242,7 +243,8 @@ NcOf(c, ob, FF) ==
     [] c.cv = "random" -> IF c.kR > 0 \/ c.kP > 0 THEN CvNc(c, ob, FF) ELSE LooNc(ob, c.byR)
 
 (* ---------------- degrees of freedom ---------------------------------------- *)
-DofOf(c) == CASE c.routine = "fixed" -> NR - 1
+\* eval_fixed: the evaluated units are the RDMs of the stack handed in (one column each), repeated or not
+DofOf(c) == CASE c.routine = "fixed" -> NFolds(c) - 1
               [] c.routine \in {"crossval", "testset"} -> 0 - 1            \* no claim
               [] c.bootR /\ c.bootP -> Min2(Len(GR0(c)), Len(GP0(c))) - 1
               [] c.bootR -> Len(GR0(c)) - 1
@@ -471,7 +473,8 @@ CeilingSameSample == phase \in {"stored", "done"} =>
 \* e: dof = number of resampled units - 1, the smaller when both axes are resampled
 DofRule == agg.done /\ rc.routine \notin {"crossval", "testset"} =>
   LET ur == Cardinality(Range(RDesc(Source, rc.byR)))  up == Cardinality(Range(PDesc(Source, rc.byP))) IN
-  /\ rc.routine = "fixed" => agg.dof = Len(Source.rows) - 1
+  /\ rc.routine = "fixed" => /\ agg.dof = Len(SamplesOf(rc, log[1].d)[1].rows) - 1
+                             /\ agg.dof = Cardinality({k \in DOMAIN ev : k[2] = 1}) - 1      \* columns of the table
   /\ rc.routine # "fixed" /\ rc.bootR /\ rc.bootP => agg.dof = Min2(ur, up) - 1
   /\ rc.routine # "fixed" /\ rc.bootR /\ ~rc.bootP => agg.dof = ur - 1
   /\ rc.routine # "fixed" /\ ~rc.bootR /\ rc.bootP => agg.dof = up - 1
